@@ -158,3 +158,22 @@ def sparse_edges(n, seed, back=0):
         b = a + 1 + lcg() % (n - 1 - a)
         out.append([b, a])
     return out
+
+
+@contextlib.contextmanager
+def user_stack(frames=950):
+    """Hypothesis raises the interpreter's recursion limit while it runs a test; a user calls
+    the library from a shallow stack under the default limit of 1000.  Give the code under
+    test what that user would have: `frames` frames from here."""
+    import sys
+    depth = 0
+    frame = sys._getframe()
+    while frame is not None:
+        depth += 1
+        frame = frame.f_back
+    old = sys.getrecursionlimit()
+    sys.setrecursionlimit(depth + frames)
+    try:
+        yield
+    finally:
+        sys.setrecursionlimit(old)
